@@ -6,6 +6,7 @@ states; helper lemmas live in `MesonModel/Eval/Lemmas.lean`.  The operator and m
 statements depend on are the regenerated ones (`Generated/EvalTables.lean`).
 -/
 import MesonModel.Eval.Lemmas
+import MesonModel.Eval.Frame
 
 namespace MesonModel.Props.C01
 open MesonModel.Eval MesonModel.Generated
@@ -100,33 +101,34 @@ example : pyFloorDiv 7 (-2) = -4 ∧ pyMod 7 (-2) = -1 ∧ pyFloorDiv (-7) 2 = -
 
 /-! ### strict typing -/
 
-/-- arithmetic and ordering/equality operators (the ones the reference types strictly) -/
-def strictOp : Op → Bool
-  | .plus | .minus | .times | .div | .mod | .equals | .notEquals | .greater | .less | .greaterEquals
-  | .lessEquals => true
-  | _ => false
-
 /-- what the reference promises: operands of different types are never combined -/
 def no_implicit_conversion_full : Prop :=
   ∀ (op : Op) (l r : Val), strictOp op = true → l.ty ≠ r.ty → ¬ (l.ty = .arr ∧ op = .plus) →
     ∃ e, operatorCall l op (some r) = .error e ∧ e ≠ .unsupported
 
-/-- what the code does: the statement holds except for `int <op> bool` (`isinstance(True, int)`) -/
+/-- what the code does: the statement holds except for `int <op> bool` (`isinstance(True, int)`).
+The proof is reflective: `strictTableOk` is a decidable fact about the REGENERATED operator table
+(re-checked by `decide` whenever the table changes), `rejects_sound` relates it to `operatorCall`. -/
 theorem no_implicit_conversion_partial (op : Op) (l r : Val) (hop : strictOp op = true)
     (hty : l.ty ≠ r.ty) (happend : ¬ (l.ty = .arr ∧ op = .plus))
     (hquirk : ¬ (l.ty = .int ∧ r.ty = .bool)) :
     ∃ e, operatorCall l op (some r) = .error e ∧ e ≠ .unsupported := by
-  cases l <;> cases r <;> simp [Val.ty] at hty happend hquirk <;> cases op <;>
-    simp [strictOp] at hop happend <;>
-    first
-      | exact ⟨.invalidArguments, rfl, by decide⟩
-      | exact ⟨.invalidCode, rfl, by decide⟩
+  apply rejects_sound
+  have h := strictTable_spec strictTableOk_holds l.ty op r.ty
+  simp only [strictCase, hop, Bool.true_and] at h
+  by_cases c1 : l.ty = r.ty
+  · exact absurd c1 hty
+  · by_cases c2 : (l.ty = .arr ∧ op = .plus)
+    · exact absurd c2 happend
+    · by_cases c3 : (l.ty = .int ∧ r.ty = .bool)
+      · exact absurd c3 hquirk
+      · simpa [c1, c2, c3] using h
 
 /-- the retained quirk: every `int` operator accepts a `bool` right operand as 0/1 -/
 theorem no_implicit_conversion_counterexample : ¬ no_implicit_conversion_full := by
   intro h
   obtain ⟨e, he, _⟩ := h .plus (.int 1) (.bool true) rfl (by decide) (by decide)
-  have : operatorCall (.int 1) .plus (some (.bool true)) = .ok (.int 2) := by decide
+  have : operatorCall (.int 1) .plus (some (.bool true)) = .ok (.int 2) := by rfl
   rw [this] at he
   cases he
 
@@ -177,10 +179,163 @@ theorem keys_sorted (d : List (Str × Val)) :
     methodCall (.dict d) cs!"keys" [] [] = .ok (.arr ((dictKeysSorted d).map .str)) ∧
     Sorted (dictKeysSorted d) ∧ (dictKeysSorted d).Perm (d.map (·.1)) := by
   refine ⟨?_, sortStrs_sorted _, sortStrs_perm _⟩
-  have hm : (methodsOf .dict).contains cs!"keys" = true := by decide
-  simp [methodCall, hm, Val.ty, dictMethod, noKw, noPos, flattenL, bind, Except.bind, pure, Except.pure]
+  unfold methodCall
+  have hm : (methodsOf (Val.dict d).ty).contains cs!"keys" = true := by
+    show (methodsOf .dict).contains cs!"keys" = true
+    decide
+  rw [hm]
+  simp [dictMethod, noKw, noPos, flattenL, bind, Except.bind, pure, Except.pure]
 
 example : dictKeysSorted [(cs!"b", .int 1), (cs!"a", .int 2), (cs!"B", .int 3)] = [cs!"B", cs!"a", cs!"b"] := by
   decide
+
+/-! ### `foreach` with `break` / `continue` -/
+
+/-- `break` in the body ends the loop at once: the remaining items are never bound or visited -/
+theorem foreach_break (body : EvalM Unit) (vars : List Str) (vals : List Val) (rest : List (List Val))
+    (s s1 s2 : St) (hb : bindVars vars vals s = .ok () s1) (hbody : body s1 = .sig true s2) :
+    forLoop body vars (vals :: rest) s = .ok () { s2 with cov := .note cs!"foreach:break" :: s2.cov } := by
+  simp [forLoop, hb, hbody]
+
+/-- `continue` skips the rest of the body and goes on with the next item, exactly like a body that
+ran to its end -/
+theorem foreach_continue (body : EvalM Unit) (vars : List Str) (vals : List Val) (rest : List (List Val))
+    (s s1 s2 : St) (hb : bindVars vars vals s = .ok () s1) (hbody : body s1 = .sig false s2) :
+    forLoop body vars (vals :: rest) s =
+      forLoop body vars rest { s2 with cov := .note cs!"foreach:continue" :: s2.cov } := by
+  simp [forLoop, hb, hbody]
+
+theorem foreach_next (body : EvalM Unit) (vars : List Str) (vals : List Val) (rest : List (List Val))
+    (s s1 s2 : St) (hb : bindVars vars vals s = .ok () s1) (hbody : body s1 = .ok () s2) :
+    forLoop body vars (vals :: rest) s = forLoop body vars rest s2 := by
+  simp [forLoop, hb, hbody]
+
+theorem bindVars_no_signal : ∀ (vars : List Str) (vals : List Val) (s s' : St) (b : Bool),
+    bindVars vars vals s ≠ .sig b s'
+  | [], _, s, s', b => by simp [bindVars, pure, EvalM.pure]
+  | _ :: _, [], s, s', b => by simp [bindVars, pure, EvalM.pure]
+  | n :: ns, v :: vs, s, s', b => by
+    simp only [bindVars, bind, EvalM.bind, setVar]
+    cases h : isBuiltin n
+    · simp only [Bool.false_eq_true, ↓reduceIte]
+      exact bindVars_no_signal ns vs _ s' b
+    · simp
+
+/-- a `break`/`continue` request never leaves the loop that encloses it, whatever the body does -/
+theorem foreach_absorbs_signals (body : EvalM Unit) (vars : List Str) :
+    ∀ (items : List (List Val)) (s s' : St) (b : Bool), forLoop body vars items s ≠ .sig b s'
+  | [], s, s', b => by simp [forLoop, pure, EvalM.pure]
+  | vals :: rest, s, s', b => by
+    simp only [forLoop]
+    cases h1 : bindVars vars vals s with
+    | ok u s1 =>
+      simp only []
+      cases h2 : body s1 with
+      | ok u2 s2 => exact foreach_absorbs_signals body vars rest _ s' b
+      | err e s2 => simp
+      | sig b2 s2 =>
+        cases b2
+        · exact foreach_absorbs_signals body vars rest _ s' b
+        · simp
+    | err e s1 => simp
+    | sig b1 s1 => exact absurd h1 (bindVars_no_signal vars vals s _ _)
+
+/-- so a whole `foreach` statement never propagates one (provided the iterated expression does not) -/
+theorem foreach_statement_absorbs (ln : Nat) (vars : List Str) (items : Node) (block : List Node)
+    (s s' : St) (b : Bool) (hi : ∀ t, eval items (at_ s ln) ≠ .sig b t) :
+    eval (.foreach ln vars items block) s ≠ .sig b s' := by
+  simp only [eval, bind, EvalM.bind, setLine]
+  cases h1 : eval items { s with line := ln } with
+  | ok a s1 =>
+    simp only [liftE]
+    cases h2 : iterItems a vars.length with
+    | ok tuples =>
+      simp only []
+      cases h3 : forLoop (execBlock block) vars tuples
+          { s1 with cov := Tag.foreach (Option.map Val.ty a) none :: s1.cov } with
+      | ok u s2 => simp [pure, EvalM.pure]
+      | err e s2 => simp
+      | sig b2 s2 => exact absurd h3 (foreach_absorbs_signals _ _ _ _ _ _)
+    | error e => simp
+  | err e s1 => simp
+  | sig b1 s1 =>
+    intro hc
+    cases hc
+    exact hi _ h1
+
+/-- iteration order: arrays in index order, dictionaries in insertion order, `range(a, b, s)`
+as a, a+s, … -/
+theorem foreach_iteration_order (l : List Val) (d : List (Str × Val)) :
+    iterItems (some (.arr l)) 1 = .ok (l.map ([·])) ∧
+    iterItems (some (.dict d)) 2 = .ok (d.map (fun e => [.str e.1, e.2])) ∧
+    iterItems (some (.range 1 7 2)) 1 = .ok [[.int 1], [.int 3], [.int 5]] := by
+  refine ⟨rfl, rfl, by rfl⟩
+
+/-! ### assignment and `+=` touch only the assigned name -/
+
+/-- `name = v`: the new table is the old one with `name` bound to the value; nothing else moves -/
+theorem assignment_no_alias (ln : Nat) (name : Str) (v : Node) (s s1 : St) (x : Val)
+    (hd : s.depth = 0) (hb : isBuiltin name = false)
+    (hv : eval v (at_ s ln) = .ok (some x) s1) :
+    eval (.assign ln name v) s = .ok none { s1 with vars := insert name x s1.vars } ∧
+    lookup name (insert name x s1.vars) = some x ∧
+    ∀ y, y ≠ name → lookup y (insert name x s1.vars) = lookup y s1.vars := by
+  refine ⟨?_, lookup_insert_self _ _ _, fun y hy => lookup_insert_ne _ hy _⟩
+  have h0 : ¬ (({ s with line := ln } : St).depth ≠ 0) := by simpa using hd
+  simp only [eval, bind, EvalM.bind, setLine, getSt]
+  rw [if_neg h0]
+  simp only [at_] at hv
+  simp only [EvalM.bind, hv, setVar, hb]
+  simp [pure, EvalM.pure]
+
+/-- `name += e` builds a NEW value from the old value of `name` and binds it to `name`; every other
+name (in particular one that was assigned from `name` before) keeps the value it had -/
+theorem plus_assign_fresh (ln : Nat) (name : Str) (e : Node) (s s1 : St) (add old new : Val)
+    (hb : isBuiltin name = false)
+    (he : eval e (at_ s ln) = .ok (some add) s1)
+    (hold : lookup name s1.vars = some old)
+    (hplus : operatorCall old .plus (some add) = .ok new) :
+    eval (.plusassign ln name e) s =
+      .ok none { s1 with vars := insert name new s1.vars,
+                         cov := .bin old.ty .plus add.ty true none :: s1.cov } ∧
+    ∀ y, y ≠ name → lookup y (insert name new s1.vars) = lookup y s1.vars := by
+  refine ⟨?_, fun y hy => lookup_insert_ne _ hy _⟩
+  simp only [at_] at he
+  simp only [eval, bind, EvalM.bind, setLine, he, getVar, hb, hold, liftE, setVar, Bool.false_eq_true,
+    ↓reduceIte, hplus]
+  simp [pure, EvalM.pure]
+
+/-- THE immutability statement, for every tree and every state: whatever evaluating `n` does —
+finishing, failing, or leaving through `break`/`continue` — a name that `n` does not syntactically
+(re)bind (`mayWrite x n = false`: no `x = …`, `x += …`, `foreach x`, and no `set_variable` /
+`unset_variable` call, whose target is computed) is bound to exactly the value it had before.
+In particular `b += …`, a method call, or an operator on a value obtained from `a` never changes `a`. -/
+theorem no_operation_changes_another_name (x : Str) (n : Node) (h : mayWrite x n = false) (s : St) :
+    lookup x (eval n s).st.vars = lookup x s.vars := by
+  have := frame_eval x n h
+  unfold FrameM at this
+  exact this s
+
+/-- the same for a whole block of statements (a build file, a loop body, an `if` arm) -/
+theorem block_changes_only_assigned_names (x : Str) (b : List Node) (h : mayWriteL x b = false) (s : St) :
+    lookup x (execBlock b s).st.vars = lookup x s.vars := by
+  have := frame_execBlock x b h
+  unfold FrameM at this
+  exact this s
+
+example : mayWrite cs!"a" (.plusassign 3 cs!"b" (.arr 3 [.id 3 cs!"a"] [] false)) = false := by decide
+
+/-- the documented example: `b = a; b += [2]` leaves `a` alone -/
+def aliasProgram : List Node :=
+  [.assign 1 cs!"a" (.arr 1 [.num 1 1] [] false), .assign 2 cs!"b" (.id 2 cs!"a"),
+   .plusassign 3 cs!"b" (.arr 3 [.num 3 2] [] false)]
+
+def varIs (r : Res Unit) (x : Str) (v : Val) : Bool :=
+  match r with
+  | .ok _ s => (match lookup x s.vars with | some w => pyEq w v && pyEq v w | none => false)
+  | _ => false
+
+example : varIs (runProgram aliasProgram) cs!"a" (.arr [.int 1]) = true ∧
+          varIs (runProgram aliasProgram) cs!"b" (.arr [.int 1, .int 2]) = true := by decide +kernel
 
 end MesonModel.Props.C01
